@@ -44,7 +44,7 @@ theorem SH2_real (x4 t : ℝ) :
 /-! ### code = specification -/
 
 /-- `SH1[i]` of the code is the published S-curve SH1 at t = i+1, for every x4 > 0 and every index. -/
-theorem sh1_code_eq_spec (x4 : ℝ) (hx : 0 < x4) (i : ℕ) (hi : i < ⌈x4⌉₊) :
+theorem sh1_code_eq_spec (x4 : ℝ) (_hx : 0 < x4) (i : ℕ) (hi : i < ⌈x4⌉₊) :
     sh1At x4 ⌈x4⌉₊ i = Spec.GR4J.SH1 x4 ((i + 1 : ℕ) : ℝ) := by
   rw [sh1At_real, SH1_real]
   have ht : (0 : ℝ) < ((i + 1 : ℕ) : ℝ) := by positivity
